@@ -213,16 +213,17 @@ def run(ctx):
     r3 = chk.rule("C10.R3", "a failed save affects nothing but the file: in-memory insert first, result not branched on",
                   "a failed save loses at most that one learned choice; commit keeps working")
     cc = R["commit"]
-    b = prog.body(cc)
+    from . import roles as _roles
+    b = _roles.ib(prog, cc)
     def _is_write(t):
         return callee_name(t) in ("std::fs::write",) or callee_name(t).endswith("OpenOptions::open") or callee_name(t).endswith("File::create") \
             or callee_name(t).endswith("write_all")
     wr = [(bb, t) for (bb, t) in b.calls() if _is_write(t)]
     write_closures = set()
-    for ck in prog.closures_of(cc):
+    for ck in [x for g in [cc] + list(b.fn.get("inlined", [])) for x in prog.closures_of(g)]:
         if any(_is_write(t) for (bb, t) in prog.body(ck).calls()):
             crt = closure_creation(prog, ck)
-            if crt and crt[0].key == cc:
+            if crt:
                 write_closures.add(ck)
                 # position = the call that consumes the closure
                 from engine.analyses import closure_consumer
@@ -254,12 +255,12 @@ def run(ctx):
                 sides = []
                 for (node, vals, tgt) in b.switch_edges(s):
                     region = b.reachable_from(tgt)
-                    ws = [(f, op) for (f, op, bb2, w) in phonetic.field_writes(prog, cc, mods) if bb2 in region]
+                    ws = [(f, op) for (f, op, bb2, w) in phonetic.field_writes(prog, cc, mods, body=b) if bb2 in region]
                     sides.append((vals, frozenset(ws), tgt))
                 if len({x[1] for x in sides}) > 1:
                     bad = (s, [sorted(x[1]) for x in sides])
         # every normal return must be post-dominated… the session reset must not depend on the write
-        clears = [bb for (f, op, bb, w) in phonetic.field_writes(prog, cc, mods) if op.endswith("::clear") and f == (builders.method_roles(prog)[R["method_ty"]]["buffer"],)]
+        clears = [bb for (f, op, bb, w) in phonetic.field_writes(prog, cc, mods, body=b) if op.endswith("::clear") and f == (builders.method_roles(prog)[R["method_ty"]]["buffer"],)]
         reset_always = bool(clears) and any(b.postdominates(cb_, 0) for cb_ in clears)
         if bad:
             r3.violation("result", "the outcome of the save decides what is written to the method's state: %s" % (bad[1],), site_of(b, bad[0]))
